@@ -48,19 +48,23 @@ def main():
         variants = [r["fixed"] for r in rs]
         if all(v for v in variants):
             res.fail(f"corr:braket_rev:{name}:no_generic_row", "no unconditional row extracted", {"gate": name})
-        for fixed in variants:
-            for _ in range(reps):
+        # every row with its fixed angles met exactly, and the same angles MISSED by a little (1e-5 ... 3e-9): the code
+        # compares floats with ==, so a near miss must take the row of the generic branch, exactly
+        cases = [(fixed, 0.0) for fixed in variants for _ in range(reps)]
+        cases += [(fixed, d) for fixed in variants if fixed for d in (1e-5, -1e-5, 1e-7, -3e-9)]
+        for fixed, miss in cases:
+            for _ in range(1):
                 n = rng.randint(ar, 6)
                 qs = rng.sample(range(n), ar)
                 ps = [O.rand_angle(rng) for _ in range(npar)]
                 for i, k in fixed.items():
-                    ps[i] = k * math.pi / 4 if k else 0.0
+                    ps[i] = (k * math.pi / 4 if k else 0.0) + miss
                 # a random angle could meet a fixed value of another row only by coincidence; the expected row is decided
                 # on the actual values
                 exp = next(r for r in rs if all(ps[i] == (k * math.pi / 4 if k else 0.0) for i, k in r["fixed"].items()))
                 ins = Instruction(getattr(Gate, name)(*ps), qs)
                 inp = {"gate": name, "qubits": qs, "params": ps}
-                res.count((name, tuple(qs), tuple(ps)), bucket="gate_from_braket:" + name + (":fixed" if fixed else ""))
+                res.count((name, tuple(qs), tuple(ps)), bucket="gate_from_braket:" + name + (":fixed" if fixed else "") + (":near_miss" if miss else ""))
                 try:
                     g = gate_from_braket(ins)
                 except Exception as e:  # noqa: BLE001
